@@ -4,6 +4,7 @@
 mod common;
 mod jsonio;
 mod prog;
+mod s_atten;
 mod s_authz;
 mod s_engine;
 mod s_expr;
@@ -23,6 +24,7 @@ fn main() {
         "expr" => s_expr::run(&opts),
         "engine" => s_engine::run(&opts),
         "authz" => s_authz::run(&opts),
+        "atten" => s_atten::run(&opts),
         other => {
             eprintln!("unknown stream {other}");
             std::process::exit(2);
